@@ -693,6 +693,15 @@ namespace
                     want = inside ? eval(e["inside"]) : eval(e["outside"]);
                   ok = at < static_cast<long>(out.size()) && out[at] == want;
                 }
+              else if (k == "between")
+                {
+                  // cell and the cell in column "col2" are the two end members: the value is a convex combination of them
+                  const double other = c[e["col2"].GetUint()];
+                  const double lo = std::min(cell, other), hi = std::max(cell, other);
+                  const double slack = (e.HasMember("slack") ? eval(e["slack"]) : 1e-9) * std::max(1., std::max(std::fabs(lo), std::fabs(hi)));
+                  want = lo;
+                  ok = at < static_cast<long>(out.size()) && out[at] >= lo - slack && out[at] <= hi + slack;
+                }
               else if (k == "tol")
                 {
                   const double rel = e.HasMember("rel") ? eval(e["rel"]) : 0., abs_ = e.HasMember("abs") ? eval(e["abs"]) : 0.;
